@@ -95,7 +95,11 @@ func c14Order(c *run.Ctx) {
 			case k == 6:
 				// helper with a side effect: b[cell] += 1, returns the new value
 				b[cell]++
-				if r.Bool() {
+				if r.Chance(1, 3) {
+					// the cell is read, then an override expression is folded, then the call changes the cell:
+					// WGSL evaluates the operands left to right
+					newLet(fmt.Sprintf("b[%d] * %s + bump(%du)", cell, e.text, cell), (b[cell]-1)*e.val+b[cell])
+				} else if r.Bool() {
 					newLet(fmt.Sprintf("bump(%du) + %s", cell, e.text), b[cell]+e.val)
 				} else {
 					t := r.Intn(len(lets))
